@@ -107,7 +107,7 @@ def with_full_dumps(lines, every):
     return out
 
 
-def run_traces(res, pid, plan, seed, dump=True, options=None, exe=None, tag="", clock=False, skip_kinds=(), keep_outputs=None, fulldump=0):
+def run_traces(res, pid, plan, seed, dump=True, options=None, exe=None, tag="", clock=False, skip_kinds=(), keep_outputs=None, fulldump=0, repeat=1):
     """plan: list of (profile, ntraces, nops).  Fills res.cov and reports violations of `pid`'s kinds.
     fulldump = n > 0: about n full-state dumps per trace (op DUMP), replayed against the composite model (mode compose)"""
     exe = exe or build(res)
@@ -125,7 +125,10 @@ def run_traces(res, pid, plan, seed, dump=True, options=None, exe=None, tag="", 
                 lines = with_full_dumps(lines, max(10, len(lines) // fulldump))
             path = os.path.join(tdir, "%s_%d.trace" % (profile, s))
             open(path, "w").write("\n".join(lines) + "\n")
-            jobs.append((profile, s, path, lines))
+            # repeat > 1: the same trace is run several times -- which pointers of the `aligned` profile are interior depends on addresses
+            # the OS hands out (seed C03e fired on 7 of 8 runs of one trace); every run is judged, the first violation per kind is kept
+            for _ in range(max(1, repeat)):
+                jobs.append((profile, s, path, lines))
     stats = collections.Counter(); opmix = collections.Counter(); sizehist = collections.Counter()
     viols = []      # (profile, seed, path, lines, op, kind, text)
     outputs = {}
